@@ -276,9 +276,9 @@ theorem replay_of_honest (thr : Nat → Nat → Nat → Except Err Int) (F : Chu
     ((honest_iff_reported thr F _ (S2.mkConfig_al c hc limit threads print) hthr es _
       (rinv_init c hc x limit threads print) hacc).2 hh)
 
-/-- every work item `replay` ever passes to the thread function is a `GoodItem` below the limit: the state reached by
-    a successful replay satisfies the invariant (so `hthr` quantifies over nothing more than needed is NOT claimed,
-    only that nothing less would do: each hand with `work` in any reachable state is good) -/
+/-- the work items `replay` passes to the thread function are exactly the ThreadData with `work = true` in the hand
+    table of a reachable state; each of them is a `GoodItem` that starts below the limit (so `hthr` is asked about
+    nothing but items of this shape) -/
 theorem replay_hands_good (thr : Nat → Nat → Nat → Except Err Int) (c : Consts) (hc : c.WF)
     (x limit threads : Nat) (print : Bool) (es : List S2.Ev) (s : S2.State)
     (h : replay thr (S2.mkConfig c limit threads print) (S2.init c x limit threads print) es = .ok s) :
